@@ -52,17 +52,18 @@ def run(report, tier, seed):
     reps = cside.run_tasks(tasks(tier))
     c_common.feed(report, reps, KINDS)
     # the dense degenerate branch of base.gemv (the wrapper of both kernels)
-    breps = cside.run_tasks([{'cfile': 'base.c', 'fn': 'base_gemv',
+    breps = cside.run_tasks([{'cfile': 'base.c', 'fn': f_,
                               'mode': 'spec', 'module':
                               'contracts.c.base_spec', 'timeout_ms': 10000 if
-                              tier == 'quick' else 120000}])
-    c_common.feed(report, breps, ('effect-extent',))
+                              tier == 'quick' else 120000}
+                             for f_ in ('base_gemv', 'base_symv')])
+    c_common.feed(report, breps, ('effect-extent', 'call-correspondence'))
     cache = {}
 
     def replayer(ob, base):
         fn = ob.meta.get('fn') or ''
         if (fn.startswith('sp_') and fn.endswith(('gemv', 'symv'))) or \
-                fn == 'gemv':
+                fn in ('gemv', 'symv'):
             r = gemv_battery(cache)
             if r['err']:
                 return False, {'error': r['err']}
